@@ -147,6 +147,9 @@ type Stmt struct {
 	// (len(Args)+1 entries); default is a single blank.
 	Sep []string
 	ID  int // unique statement id (for evidence / debugging)
+	// ExprLay, when set, overrides how the expressions of this statement are printed
+	// (parenthesisation, spellings, blanks); everything else follows the file's layout.
+	ExprLay *Layout
 }
 
 type Node struct {
